@@ -170,13 +170,14 @@ peg::parser! {
             }
 
         rule limit_clause() -> Clause
-            = ci("LIMIT") _ n:integer() {
-                Clause::Limit(n.parse::<u32>().unwrap())
+            = ci("LIMIT") _ n:integer() {?
+                // a number that does not fit u32 (or is negative) is a parse error, not a panic
+                n.parse::<u32>().map(Clause::Limit).or(Err("LIMIT must be an integer between 0 and 4294967295"))
             }
 
         rule offset_clause() -> Clause
-            = ci("OFFSET") _ n:integer() {
-                Clause::Offset(n.parse::<u32>().unwrap())
+            = ci("OFFSET") _ n:integer() {?
+                n.parse::<u32>().map(Clause::Offset).or(Err("OFFSET must be an integer between 0 and 4294967295"))
             }
 
         rule order_clause() -> Clause
@@ -252,13 +253,18 @@ peg::parser! {
 
         // Accept integers and decimals; choose int when no dot for stable equality in tests
         rule number() -> Value
-            = n:$( ("-")? ['0'..='9']+ ( "." ['0'..='9']+ )? ) {
+            = n:$( ("-")? ['0'..='9']+ ( "." ['0'..='9']+ )? ) {?
+                // out-of-range literals are parse errors, not panics
                 if n.contains('.') {
-                    let f: f64 = n.parse::<f64>().unwrap();
-                    Value::Number(Number::from_f64(f).unwrap())
+                    n.parse::<f64>()
+                        .ok()
+                        .and_then(Number::from_f64)
+                        .map(Value::Number)
+                        .ok_or("decimal literal out of range")
                 } else {
-                    let i: i64 = n.parse::<i64>().unwrap();
-                    Value::Number(i.into())
+                    n.parse::<i64>()
+                        .map(|i| Value::Number(i.into()))
+                        .or(Err("integer literal out of range"))
                 }
             }
 
